@@ -60,8 +60,24 @@ def c17Op (args : List String) : String :=
           let signBad : Bool := match obs with
             | .ok (.sc (.str s)) => isOffKind && (s.contains '-' != decide (d.off < 0) || s.contains '+' != decide (0 ≤ d.off))
             | _ => false
+          -- … and fills exactly the requested width (5 / 6 / 9 columns by default), whatever the padding style
+          let widthBad : Bool := match obs, fmt with
+            | .ok (.sc (.str s)), '%' :: r =>
+              (match C17S.splitSpec r with
+               | some sp =>
+                 let dflt : Option Nat :=
+                   if sp.dir == 'z' && sp.rest.isEmpty then some 5
+                   else if sp.dir == ':' && sp.rest == ['z'] then some 6
+                   else if sp.dir == ':' && sp.rest == [':', 'z'] then some 9 else none
+                 (match dflt with
+                  | some k => isOffKind && s.length != max (sp.width.getD 0) k
+                  | none => false)
+               | none => false)
+            | _, _ => false
           if signBad then
             "specfail " ++ kind ++ " law=offset-sign impl=" ++ showFObs obs
+          else if widthBad then
+            "specfail " ++ kind ++ " law=offset-fills-its-width impl=" ++ showFObs obs
           else if specBad then
             "specfail " ++ kind ++ " law=directive expected=" ++ xstr ((exp.getD [])) ++ " impl=" ++ showFObs obs
           else
